@@ -72,12 +72,12 @@ KV(kk, vv) == [key |-> kk, val |-> vv]
 I0 == Obj("int", "0")      I1 == Obj("int", "1")
 BT == Obj("bool", "True")  BF == Obj("bool", "False")
 F15 == Obj("float", "1.5") SA == Obj("str", "a")  SE == Obj("str", "")
-F1 == Obj("float", "1.0")
+FLT1 == Obj("float", "1.0")
 NONE == Obj("NoneType", "None")
 RED == Obj("Color", "RED") GREEN == Obj("Color", "GREEN")
 OA == Obj("A", "a")        OB == Obj("B", "b")
 
-ScalarObjs == {I0, I1, BT, BF, F15, F1, SA, SE, NONE, RED, GREEN, OA, OB}
+ScalarObjs == {I0, I1, BT, BF, F15, FLT1, SA, SE, NONE, RED, GREEN, OA, OB}
 ClassObjs == {ClassObj(c) : c \in {"int", "bool", "str", "A", "B", "object"}}
 ContainerObjs ==
     {Cont("list", << >>), Cont("list", <<I1>>), Cont("list", <<SA>>), Cont("list", <<I1, SA>>), Cont("list", <<BT>>),
@@ -88,9 +88,9 @@ ContainerObjs ==
      Cont("dict", <<KV(SA, I1), KV(SE, BT)>>),
      Cont("list", <<Cont("list", <<I1>>)>>), Cont("tuple", <<Cont("list", <<SA>>), I1>>),
      \* sibling elements that compare equal in Python although their types differ (1 == 1.0 == True)
-     Cont("list", <<Cont("tuple", <<I1>>), Cont("tuple", <<F1>>)>>), Cont("list", <<Cont("tuple", <<F1>>), Cont("tuple", <<I1>>)>>),
-     Cont("list", <<Cont("list", <<I1>>), Cont("list", <<F1>>)>>), Cont("list", <<Cont("list", <<BT>>), Cont("list", <<I1>>)>>),
-     Cont("dict", <<KV(SA, Cont("list", <<BT>>)), KV(SE, Cont("list", <<I1>>))>>), Cont("tuple", <<I1, F1>>)}
+     Cont("list", <<Cont("tuple", <<I1>>), Cont("tuple", <<FLT1>>)>>), Cont("list", <<Cont("tuple", <<FLT1>>), Cont("tuple", <<I1>>)>>),
+     Cont("list", <<Cont("list", <<I1>>), Cont("list", <<FLT1>>)>>), Cont("list", <<Cont("list", <<BT>>), Cont("list", <<I1>>)>>),
+     Cont("dict", <<KV(SA, Cont("list", <<BT>>)), KV(SE, Cont("list", <<I1>>))>>), Cont("tuple", <<I1, FLT1>>)}
 Objects == ScalarObjs \cup ClassObjs \cup ContainerObjs
 
 StrObjs == {o \in ScalarObjs : o.c = "str"}
